@@ -180,17 +180,17 @@ vals = ("Symbolic: the default of every flavor's own instance variable, the cons
         "flavor-before-its-methods) when ord = -1; when ord >= 0 the case runs four pseudo-random orders (numbers 4*ord..4*ord+3, "
         "mixed with VERIF_SEED; the odd ones are rejection-sampled among the orders outside the two insertMethod regions, so "
         "that sampled cases of larger programs are not all cut by the carve-outs). ")
-regions = ("Known-finding regions are delimited with a 30-line replica of insertMethod's placement walk applied to lists of "
-           "flavor indexes (zzC11Replica; used for the carve predicates only, the oracle is the component order computed from "
-           "the written DAG): C11-vanilla-before-components = (message :init only) at some defflavor the copied lists put "
-           "vanilla-flavor's entry in front of a later component's entry; C11-insert-alias = some late insertion lands inside a "
-           "list; C11-insert-position = some final table differs from component order and no aliasing happened (the three are "
-           "made disjoint in that order); C11-whopper-skip = for some flavor the providers in "
-           "component order contain a whopper directly behind a non-first whopper that runs (flavors outside that pattern are "
-           "checked before the carve). ")
+regions = ("Known-finding regions are delimited with a 40-line replica of insertMethod's placement walk and of inheritFlavor's list "
+           "copy applied to lists of flavor indexes (zzC11Replica; used for the carve predicates and for biasing sampled "
+           "orders only, the oracle is the component order computed from the written DAG). The regions are per flavor: when "
+           "the replica predicts a misordered table for some flavors of a program the path is split (vrt.Choice part): part 0 "
+           "checks every flavor whose table is predicted in component order, part 1 checks the others and lies in "
+           "C11-vanilla-before-components (if at some defflavor of the program the copied lists put vanilla-flavor's entry in "
+           "front of a later component's entry; message :init only) or else in C11-insert-position. The former regions "
+           "C11-insert-alias, C11-whopper-skip and C11-bound-after-forward are fixed in /repo and fully asserted. ")
 specs = [
     dict(common, id="C11.send", entry="VerifC11Send", cases={"quick": send_q, "thorough": send_t}, reach=["sent"],
-         carves=["C11-vanilla-before-components", "C11-insert-alias", "C11-insert-position", "C11-whopper-skip"],
+         carves=["C11-vanilla-before-components", "C11-insert-position"],
          note="Real defflavor/defmethod/defwhopper/continue-whopper/make-instance/send evaluated through the registry for a DAG "
               "of n flavors. Quick: the 10 shapes of 3 flavors x (one 3-method assignment x EVERY order + 3 assignments of <= 4 "
               "methods x 4 sampled orders), the 7 connected 3-flavor shapes x 2 assignments on :init x every order, both 2-flavor "
@@ -205,10 +205,10 @@ specs = [
               "primary is last in precedence. " + vals + regions,
          assumptions=["|symbolic fixnum| < 2^20", "orders of 4- and 5-flavor programs are sampled, not exhaustive (except three 4-flavor shapes)"]),
     dict(common, id="C11.bound", entry="VerifC11Bound", cases={"quick": bound_q, "thorough": bound_t}, reach=["sent"],
-         carves=["C11-insert-alias", "C11-insert-position", "C11-whopper-skip", "C11-bound-after-forward"],
+         carves=["C11-insert-position"],
          note="Same programs and oracle, but the message is delivered through the Go API Instance.BoundReceive "
               "(Method.BoundCall/BoundInnerCall) with the argument bound in a scope; custom message only (vanilla's callers are "
-              "not BoundCallers). C11-bound-after-forward = no whopper among the providers and >= 2 :after daemons. " + vals + regions,
+              "not BoundCallers). " + vals + regions,
          assumptions=["|symbolic fixnum| < 2^20"]),
     dict(common, id="C11.vars", entry="VerifC11Vars", cases={"quick": vars_q, "thorough": vars_t}, reach=["made"],
          carves=["C11-undefaulted-var-shadows-default", "C11-initable-not-inherited"],
